@@ -198,7 +198,7 @@ def random_batches(seed, tier, n_quick, n_thorough, nops, dicts=("A",), **kw):
 CLASS_RE = re.compile(r'^<<"CLASS", "([^"]*)">>')
 
 
-def design_phys(out, maxops, v4, cycles, timeout=3000, invs="InvFree InvCounts InvWF InvAbs NoGrowth InvOpen", what=None, classes=None):
+def design_phys(out, maxops, v4, cycles, timeout=3000, invs="InvFree InvCounts InvWF InvAbs NoGrowth InvOpen", what=None, classes=None, data=False):
     """Exhaustive design-level run of MC_Phys (CfbPhys at tiny geometry).  Its verdict is about the
     model; conformance of the code to the model is what phys_fidelity reports."""
     b = lambda x: "TRUE" if x else "FALSE"
@@ -207,11 +207,14 @@ CONSTANTS Names = {{"a", "b", "c"}} Sizes = {{0, 1, 3, 7, 8, 9, 13}} MaxOps = {m
 INVARIANT {invs}
 CHECK_DEADLOCK FALSE
 """
-    tag = f"mcp_{out.prop}_{maxops}_{int(v4)}_{int(cycles)}_{len(invs)}"
+    tag = f"mcp_{out.prop}_{maxops}_{int(v4)}_{int(cycles)}_{len(invs)}_{int(data)}"
     path = os.path.join(core.SPEC, f"_{tag}.cfg")
     open(path, "w").write(cfg)
     try:
-        rc, lines = core.run_tlc("MC_Phys.tla", os.path.basename(path), {"CLASSES": "1"} if classes is not None else {},
+        env = {"CLASSES": "1"} if classes is not None else {}
+        if data:
+            env["DATA"] = "1"
+        rc, lines = core.run_tlc("MC_Phys.tla", os.path.basename(path), env,
                                  os.path.join(core.WORK, f"md_{tag}"), workers=6, timeout=timeout, xmx="8g", deque=False)
     finally:
         os.remove(path)
@@ -300,6 +303,8 @@ FILE_ASSUME = [
 
 def check_c01(tier, seed):
     out = Outcome("C01", tier, seed)
+    design_phys(out, 4 if tier == "quick" else 5, False, False, invs="InvData InvAbs", data=True,
+                what="refinement of the abstract tree by the physical model including stream bytes (InvAbs, InvData)")
     run_batch(out, "edges", "A", edges_namespace(out, tier))
     from . import dirchecks
     run_batch(out, "shapes", "A", dirchecks.shape_histories(out, tier))
@@ -440,6 +445,11 @@ def check_c10(tier, seed):
 
 def check_c08(tier, seed):
     out = Outcome("C08", tier, seed)
+    # design level: CfbPhys with the bytes of every sector in the state (tiny geometry, exhaustive): every stream reads
+    # back the abstract bytes - zeros where set_len added them, whatever the reused (mini) sectors held before
+    for v4 in (False, True):
+        design_phys(out, 4 if tier == "quick" else 5, v4, False, invs="InvData ZeroExposure InvFree", data=True,
+                    what="stream bytes tracked per sector: InvData (every stream reads back the abstract bytes), ZeroExposure")
     run_batch(out, "templates", "A", gens.c08_templates(tier))
     hs = random_batches(seed + 5, tier, 40, 400, 50, dicts=("A",), meta_p=0.0, reopen_p=0.02,
                         sizes=[0, 1, 63, 64, 65, 100, 511, 512, 513, 4095, 4096, 4097, 5000, 8191, 8192, 8200])["A"]
@@ -452,6 +462,7 @@ def check_c08(tier, seed):
     run_batch(out, "handle", "A", hgens.c08_handle_histories(tier) + hgens.setlen_within_unit_histories(tier) + hgens.dirty_growth_histories(tier),
               spec="Trace_Handle", driver="hdrive")
     return finish(out, "model_checking",
+                  "design level: MC_Phys with the bytes of every sector in the state (InvData, ZeroExposure; exhaustive at tiny geometry); "
                   "CfbTree.SetLen extends with a zero run; all writes use fresh non-zero fill bytes so stale data is a mismatch in api / Abs(img) / reopen dumps. "
                   "T1 write-shrink-grow triples, T2 reuse after remove/shrink (with/without pinned mini-stream tail), T3 across migrations, T4 cut and growth inside the same final (mini) sector (file level and through one handle)",
                   FILE_ASSUME)
